@@ -3,9 +3,10 @@
 (* State pruning, pruning buffer, snapshots and checkpoints of elrond-go    *)
 (* (properties C09, C10), on node SETS.                                     *)
 (*                                                                          *)
-(* A state version is a record [r, n, dts]: r = hash of the main trie root  *)
-(* node, n = every trie node reachable from it (main trie and every         *)
-(* account data trie, r included), dts = the data tries as records [r, n].  *)
+(* A state version is a record [r, n, dts, h]: r = hash of the main trie    *)
+(* root node, n = every trie node reachable from it (main trie and every    *)
+(* account data trie, r included), dts = the data tries as records [r, n],  *)
+(* h = block nonce.                                                         *)
 (* Node ids are small integers (interned hashes in recorded traces).        *)
 (*                                                                          *)
 (* The actions follow the code:                                             *)
@@ -47,9 +48,12 @@ EXTENDS Integers, Sequences, FiniteSets, TLC, SequencesExt, FiniteSetsExt
 CONSTANTS Inner,         \* model checking: ids of non-root main-trie nodes
           DataTries,     \* model checking: candidate data tries, records [r, n]
           MaxRoots,      \* model checking: number of fresh blocks
+          MaxRollbacks,  \* model checking: number of rollbacks
           BufLens,       \* candidate pruning buffer lengths
           QueueSizes,    \* candidate pruning queue sizes (UserStatePruningQueueSize)
           SnapLimits,    \* candidate MaxSnapshots
+          CpMods,        \* candidate stateCheckpointModulus values (0 = off)
+          F3Set,         \* subset of BOOLEAN: is the repair of D3 applied (outdated buffered cancels are skipped)?
           MaxBlocked,    \* bound on manual Enter calls
           MaxJobs,       \* bound on snapshot/checkpoint jobs (0 = C09 only)
           AllowReapply,  \* may a rolled-back block be committed again (same root)?
@@ -62,12 +66,13 @@ VARIABLES chain,     \* live (not yet pruned) versions, oldest first; Last = cur
           ewl,       \* eviction waiting list: <<root, id>> -> set of nodes   (id: 0 = OldRoot, 1 = NewRoot)
           buf,       \* pruning buffer: sequence of [key, op, stale]   op "p" prune / "c" cancel; stale is a ghost
           blocked,   \* trieStorageManager.pruningBlockingOps
+          manual,    \* how many of them are Enter calls of the driver (not of a job)
           dead,      \* ghost: nodes of versions that have been pruned
           rolled,    \* ghost: rolled-back versions [v, p] (p = parent root) that may be re-applied
-          nroots,    \* model checking: fresh roots used
+          nroots,    \* model checking: [f |-> fresh roots used, rb |-> rollbacks done]
           leak,      \* ghost: [D1, D2, D3 |-> nodes whose deletion was skipped by that deviation]
           quiet,     \* the last step issued an unblocked PruneTrie (which flushes the buffer)
-          conf,      \* [buf, q, snaps] configuration
+          conf,      \* [buf, q, snaps, cpmod, f3] configuration
           holder,    \* checkpointHashesHolder: sequence of [r, s]
           snaps,     \* snapshot DBs, oldest first: sequence of node sets
           sq,        \* trieStorageManager.snapshotReq: sequence of entries
@@ -75,8 +80,8 @@ VARIABLES chain,     \* live (not yet pruned) versions, oldest first; Last = cur
           jobs,      \* sequence of [v, kind, phase, pend, main, done, ok]
           hist
 
-cvars == <<chain, nfin, db, ewl, buf, blocked, dead, rolled, nroots, leak, quiet, conf, holder, snaps, sq, cur, jobs>>
-vars  == <<chain, nfin, db, ewl, buf, blocked, dead, rolled, nroots, leak, quiet, conf, holder, snaps, sq, cur, jobs, hist>>
+cvars == <<chain, nfin, db, ewl, buf, blocked, manual, dead, rolled, nroots, leak, quiet, conf, holder, snaps, sq, cur, jobs>>
+vars  == <<chain, nfin, db, ewl, buf, blocked, manual, dead, rolled, nroots, leak, quiet, conf, holder, snaps, sq, cur, jobs, hist>>
 
 OldRoot == 0
 NewRoot == 1
@@ -115,10 +120,12 @@ RemoveFromDb(s, key) ==
              rm == {h \in hs : ~ShouldKeep(e1, h, key[2])}
          IN  [s EXCEPT !.ewl = e1, !.db = @ \ rm, !.hold = HolderRemove(@, rm)]
 
-\* storagePruningManager.cancelPrune (stale: ghost flag of a buffered cancel, see D3)
+\* storagePruningManager.cancelPrune (stale: ghost flag of a buffered cancel, see D3).
+\* conf.f3: the repaired code remembers which keys were registered again while requests were buffered and
+\* does not apply a buffered cancel to an entry that is newer than the request.
 CancelNow(s, key, stale) ==
     IF key \notin DOMAIN s.ewl THEN s
-    ELSE IF stale /\ "D3" \notin KnownDefects THEN s
+    ELSE IF stale /\ ("D3" \notin KnownDefects \/ conf.f3) THEN s
     ELSE [s EXCEPT !.ewl = Drop(@, key),
                    !.leak.D3 = IF stale THEN @ \cup s.ewl[key] ELSE @]
 
@@ -179,12 +186,18 @@ Rec(a, in, out) ==
 
 UNCHANGED_SNAP == UNCHANGED <<snaps, sq, cur, jobs>>
 
+\* a snapshot ("s") / checkpoint ("c") job of version v, see the snapshot section below
+\* conc (ghost): the jobs that were still running when this one was requested
+NewJob(v, kind) == [v |-> v, kind |-> kind, phase |-> "enq", pend |-> <<>>, main |-> "none", done |-> FALSE,
+                    judged |-> FALSE, ok |-> TRUE, conc |-> {k \in DOMAIN jobs : ~jobs[k].done}]
+
 -----------------------------------------------------------------------------
 (* block processing *)
 
 \* AccountsDB.Commit of version v on the current head.  oldH/newH are the hashes the tries report as
 \* obsolete / dirty (model checking: exactly prev \ v and v \ prev).
-Commit(v, oldH, newH, isReapply) ==
+\* forced: the checkpoint hashes holder reported "full" and Commit started a checkpoint job for v
+Commit(v, oldH, newH, isReapply, forced) ==
     LET prev == Last1(chain)
         s2   == MarkForEviction(S0, prev.r, v.r, oldH, newH)
     IN  /\ v.r \notin RangeS(ChainRoots)
@@ -192,28 +205,35 @@ Commit(v, oldH, newH, isReapply) ==
         /\ ewl' = s2.ewl /\ buf' = s2.buf
         /\ db' = db \cup v.n
         \* AddDirtyCheckpointHashes(newRoot, newHashes.Clone()) - after removeDuplicatedKeys
-        /\ holder' = Append(holder, [r |-> v.r, s |-> newH \ oldH])
+        /\ holder' = IF MaxJobs = 0 THEN holder ELSE Append(holder, [r |-> v.r, s |-> newH \ oldH])
         /\ quiet' = FALSE
-        /\ UNCHANGED <<nfin, blocked, dead, rolled, leak, conf>>
-        /\ UNCHANGED_SNAP
-        /\ hist' = Log(hist, Rec("Commit", [reapply |-> IF isReapply THEN 1 ELSE 0], [r |-> v.r, removed |-> {}]))
+        /\ blocked' = IF forced THEN blocked + 1 ELSE blocked
+        /\ jobs' = IF forced THEN Append(jobs, NewJob(v, "c")) ELSE jobs
+        /\ UNCHANGED <<nfin, dead, rolled, leak, conf, manual, snaps, sq, cur>>
+        /\ hist' = Log(hist, Rec("Commit", [reapply |-> IF isReapply THEN 1 ELSE 0],
+                                  [r |-> v.r, removed |-> {}, cp |-> IF forced THEN 1 ELSE 0]))
 
 \* baseProcessor.updateStateStorage for the next non-final block of the chain
 Finalize ==
     /\ nfin < Len(chain)
     /\ LET nf  == nfin + 1
+           \* stateCheckpointModulus: SetStateCheckpoint(root of the final header) comes first, so the
+           \* prune requests of the same call are issued while pruning is blocked
+           cp  == conf.cpmod # 0 /\ chain[nf].h % conf.cpmod = 0 /\ Len(jobs) < MaxJobs
            go  == nf > conf.q + 1                 \* the pruning queue returns its oldest root
            rp  == chain[1]
-           isB == blocked > 0
+           isB == blocked > 0 \/ cp
            s2  == IF go THEN DoPrune(DoCancel(S0, rp.r, NewRoot, isB, conf.buf), rp.r, OldRoot, isB, conf.buf) ELSE S0
        IN  /\ chain' = IF go THEN Tail(chain) ELSE chain
            /\ nfin' = IF go THEN nf - 1 ELSE nf
            /\ ewl' = s2.ewl /\ buf' = s2.buf /\ db' = s2.db /\ leak' = s2.leak /\ holder' = s2.hold
            /\ dead' = IF go THEN dead \cup rp.n ELSE dead
            /\ quiet' = (go /\ ~isB)
-           /\ UNCHANGED <<blocked, rolled, nroots, conf>>
-           /\ UNCHANGED_SNAP
-           /\ hist' = Log(hist, Rec("Finalize", [r |-> chain[nf].r], [removed |-> db \ s2.db, pruned |-> IF go THEN rp.r ELSE 0]))
+           /\ blocked' = IF cp THEN blocked + 1 ELSE blocked
+           /\ jobs' = IF cp THEN Append(jobs, NewJob(chain[nf], "c")) ELSE jobs
+           /\ UNCHANGED <<rolled, nroots, conf, manual, snaps, sq, cur>>
+           /\ hist' = Log(hist, Rec("Finalize", [r |-> chain[nf].r],
+                                     [removed |-> db \ s2.db, pruned |-> IF go THEN rp.r ELSE 0, cp |-> IF cp THEN 1 ELSE 0]))
 
 \* RecreateTrie(prev) + baseProcessor.PruneStateOnRollback for the (non-final) head
 Rollback ==
@@ -227,20 +247,23 @@ Rollback ==
            /\ dead' = dead \cup cu.n
            /\ rolled' = rolled \cup {[v |-> cu, p |-> pv.r]}
            /\ quiet' = ~isB
-           /\ UNCHANGED <<nfin, blocked, nroots, conf>>
+           /\ nroots' = [nroots EXCEPT !.rb = @ + 1]
+           /\ UNCHANGED <<nfin, blocked, conf, manual>>
            /\ UNCHANGED_SNAP
            /\ hist' = Log(hist, Rec("Rollback", [r |-> cu.r], [removed |-> db \ s2.db, prev |-> pv.r]))
 
 Enter ==
     /\ blocked' = blocked + 1
+    /\ manual' = manual + 1
     /\ quiet' = FALSE
     /\ UNCHANGED <<chain, nfin, db, ewl, buf, dead, rolled, nroots, leak, conf, holder>>
     /\ UNCHANGED_SNAP
     /\ hist' = Log(hist, Rec("Enter", [x |-> 0], [removed |-> {}]))
 
 Exit ==
-    /\ blocked > 0
+    /\ manual > 0
     /\ blocked' = blocked - 1
+    /\ manual' = manual - 1
     /\ quiet' = FALSE
     /\ UNCHANGED <<chain, nfin, db, ewl, buf, dead, rolled, nroots, leak, conf, holder>>
     /\ UNCHANGED_SNAP
@@ -277,14 +300,14 @@ RemoveCommitted(hd, root) ==
 Marked(hd, h) == \E i \in DOMAIN hd : h \in hd[i].s
 
 \* AccountsDB.SnapshotState / SetStateCheckpoint (driver thread, under AccountsDB.mutOp)
-JobStart(v, kind) ==
+JobStart(i, kind) ==
+    LET v == chain[i] IN
     /\ Len(jobs) < MaxJobs
     /\ blocked' = blocked + 1
-    /\ jobs' = Append(jobs, [v |-> v, kind |-> kind, phase |-> "enq", pend |-> <<>>, main |-> "none",
-                             done |-> FALSE, ok |-> TRUE])
+    /\ jobs' = Append(jobs, NewJob(v, kind))
     /\ quiet' = FALSE
-    /\ UNCHANGED <<chain, nfin, db, ewl, buf, dead, rolled, nroots, leak, conf, holder, snaps, sq, cur>>
-    /\ hist' = Log(hist, Rec(IF kind = "s" THEN "SnapStart" ELSE "CpStart", [r |-> v.r], [removed |-> {}]))
+    /\ UNCHANGED <<chain, nfin, db, ewl, buf, dead, rolled, nroots, leak, conf, manual, holder, snaps, sq, cur>>
+    /\ hist' = Log(hist, Rec(IF kind = "s" THEN "SnapStart" ELSE "CpStart", [r |-> v.r, idx |-> i], [removed |-> {}]))
 
 \* the verdict of C10 for a finished job: the snapshot DB that GetSnapshotThatContainsHash(root)
 \* returns (the oldest one containing the root) holds every node of the version
@@ -293,14 +316,22 @@ Complete(sn, v) ==
     /\ LET i == CHOOSE k \in DOMAIN sn : v.r \in sn[k] /\ \A m \in DOMAIN sn : v.r \in sn[m] => k <= m
        IN  v.n \subseteq sn[i]
 
-\* job j is finished when G has exited and none of its entries is queued or running
+\* job j is finished when G has exited and none of its entries is queued or running.  The verdict of
+\* C10 is taken when no job is running any more (then every job finished since the last such moment is
+\* judged): the snapshot DB returned for the root holds the whole version.
 Finish(js, q, c, sn) ==
-    [j \in DOMAIN js |->
-        IF ~js[j].done /\ js[j].phase = "exited"
-           /\ ~\E i \in DOMAIN q : q[i].j = j
-           /\ ~(c # <<>> /\ c[1].e.j = j)
-        THEN [js[j] EXCEPT !.done = TRUE, !.ok = Complete(sn, js[j].v)]
-        ELSE js[j]]
+    LET js1 == [j \in DOMAIN js |->
+                   IF /\ ~js[j].done
+                      /\ js[j].phase = "exited"
+                      /\ ~(\E i \in DOMAIN q : q[i].j = j)
+                      /\ ~(c # <<>> /\ c[1].e.j = j)
+                   THEN [js[j] EXCEPT !.done = TRUE]
+                   ELSE js[j]]
+        idle == \A j \in DOMAIN js1 : js1[j].done
+    IN  IF idle
+        THEN [j \in DOMAIN js1 |-> IF js1[j].judged THEN js1[j]
+                                    ELSE [js1[j] EXCEPT !.judged = TRUE, !.ok = Complete(sn, js1[j].v)]]
+        ELSE js1
 
 \* G of job j calls TakeSnapshot / SetCheckpoint for the main trie
 GEnqMain(j) ==
@@ -312,7 +343,7 @@ GEnqMain(j) ==
            /\ sq' = Append(sq, NewEntry(j, v.r, MainNodes(v), typ, TRUE))
            /\ jobs' = [jobs EXCEPT ![j].phase = "leaves", ![j].main = "queued"]
     /\ quiet' = FALSE
-    /\ UNCHANGED <<chain, nfin, db, ewl, buf, dead, rolled, nroots, leak, conf, snaps, cur>>
+    /\ UNCHANGED <<chain, nfin, db, ewl, buf, dead, rolled, nroots, leak, conf, manual, snaps, cur>>
     /\ hist' = Log(hist, Rec("GEnq", [j |-> j, main |-> 1], [removed |-> {}]))
 
 \* G of job j has received the leaf of an account with data trie d and enqueues it
@@ -324,7 +355,7 @@ GEnqData(j) ==
            /\ sq' = Append(sq, NewEntry(j, d.r, d.n, typ, FALSE))
            /\ jobs' = [jobs EXCEPT ![j].pend = Tail(@)]
     /\ quiet' = FALSE
-    /\ UNCHANGED <<chain, nfin, db, ewl, buf, dead, rolled, nroots, leak, conf, holder, snaps, cur>>
+    /\ UNCHANGED <<chain, nfin, db, ewl, buf, dead, rolled, nroots, leak, conf, manual, holder, snaps, cur>>
     /\ hist' = Log(hist, Rec("GEnq", [j |-> j, main |-> 0], [removed |-> {}]))
 
 \* G of job j: the leaves channel is closed and drained -> ExitPruningBufferingMode, job accounting
@@ -333,7 +364,7 @@ GExit(j) ==
     /\ blocked' = blocked - 1
     /\ jobs' = Finish([jobs EXCEPT ![j].phase = "exited"], sq, cur, snaps)
     /\ quiet' = FALSE
-    /\ UNCHANGED <<chain, nfin, db, ewl, buf, dead, rolled, nroots, leak, conf, holder, snaps, sq, cur>>
+    /\ UNCHANGED <<chain, nfin, db, ewl, buf, dead, rolled, nroots, leak, conf, manual, holder, snaps, sq, cur>>
     /\ hist' = Log(hist, Rec("GExit", [j |-> j], [removed |-> {}]))
 
 \* trieStorageManager.getSnapshotDb
@@ -360,7 +391,7 @@ LTake ==
                 /\ jobs' = [jobs EXCEPT ![e.j].main = IF e.main THEN "running" ELSE @]
     /\ sq' = Tail(sq)
     /\ quiet' = FALSE
-    /\ UNCHANGED <<chain, nfin, db, ewl, buf, dead, rolled, nroots, leak, conf, holder>>
+    /\ UNCHANGED <<chain, nfin, db, ewl, buf, dead, rolled, nroots, leak, conf, manual, holder>>
     /\ hist' = Log(hist, Rec("LTake", [x |-> 0], [removed |-> {}]))
 
 \* L copies one node h of the running entry (children before the root; the root is written last)
@@ -390,7 +421,7 @@ LCopy(h) ==
                               THEN [jobs EXCEPT ![j].pend = @ \o SetToSeq({d \in v.dts : d.leaf = h})]
                               ELSE jobs
     /\ quiet' = FALSE
-    /\ UNCHANGED <<chain, nfin, db, ewl, buf, dead, rolled, nroots, leak, conf, sq>>
+    /\ UNCHANGED <<chain, nfin, db, ewl, buf, dead, rolled, nroots, leak, conf, manual, sq>>
     /\ hist' = Log(hist, Rec("LStep", [x |-> 0], [removed |-> {}]))
 
 \* L finishes the entry: the root node is written, deferred Exit, leaves channel closed
@@ -405,7 +436,7 @@ LFinish ==
            /\ blocked' = blocked - 1
            /\ jobs' = Finish([jobs EXCEPT ![e.j].main = IF e.main THEN "done" ELSE @], sq, <<>>, snaps')
     /\ quiet' = FALSE
-    /\ UNCHANGED <<chain, nfin, db, ewl, buf, dead, rolled, nroots, leak, conf, sq>>
+    /\ UNCHANGED <<chain, nfin, db, ewl, buf, dead, rolled, nroots, leak, conf, manual, sq>>
     /\ hist' = Log(hist, Rec("LStep", [x |-> 1], [removed |-> {}]))
 
 -----------------------------------------------------------------------------
@@ -415,35 +446,37 @@ RootId(k) == 100 + k
 
 \* a data trie d = [r, n, leaf]: leaf is the main-trie leaf of the account that owns it
 Versions(k) ==
-    {[r |-> RootId(k), n |-> {RootId(k)} \cup s \cup UNION {d.n \cup {d.leaf} : d \in ds}, dts |-> ds] :
+    {[r |-> RootId(k), n |-> {RootId(k)} \cup s \cup UNION {d.n \cup {d.leaf} : d \in ds}, dts |-> ds, h |-> 0] :
         s \in SUBSET Inner, ds \in SUBSET DataTries}
 
 Init ==
     /\ \E v \in Versions(0) :
           /\ chain = <<v>> /\ db = v.n /\ ewl = (<<v.r, NewRoot>> :> v.n)
           /\ holder = <<[r |-> v.r, s |-> v.n]>>
-    /\ nfin = 1 /\ buf = <<>> /\ blocked = 0 /\ dead = {} /\ rolled = {} /\ nroots = 0
+    /\ nfin = 1 /\ buf = <<>> /\ blocked = 0 /\ manual = 0 /\ dead = {} /\ rolled = {} /\ nroots = [f |-> 0, rb |-> 0]
     /\ leak = NoLeak /\ quiet = FALSE
-    /\ conf \in [buf : BufLens, q : QueueSizes, snaps : SnapLimits]
+    /\ conf \in [buf : BufLens, q : QueueSizes, snaps : SnapLimits, cpmod : CpMods, f3 : F3Set]
     /\ snaps = <<>> /\ sq = <<>> /\ cur = <<>> /\ jobs = <<>>
     /\ hist = <<[a |-> "New", in |-> conf, out |-> [r |-> chain[1].r, removed |-> {}],
                  st |-> St(chain, nfin, db, ewl, blocked)]>>
 
 CommitFresh ==
-    /\ nroots < MaxRoots
-    /\ nroots' = nroots + 1
-    /\ \E v \in Versions(nroots + 1) :
-          LET prev == Last1(chain) IN Commit(v, prev.n \ v.n, v.n \ prev.n, FALSE)
+    /\ nroots.f < MaxRoots
+    /\ nroots' = [nroots EXCEPT !.f = @ + 1]
+    /\ \E v0 \in Versions(nroots.f + 1) :
+          LET prev == Last1(chain)
+              v == [v0 EXCEPT !.h = prev.h + 1]
+          IN  Commit(v, prev.n \ v.n, v.n \ prev.n, FALSE, FALSE)
 
 CommitReapply ==
     /\ AllowReapply
     /\ UNCHANGED nroots
     /\ \E x \in rolled :
           /\ x.p = Last1(chain).r
-          /\ LET prev == Last1(chain) IN Commit(x.v, prev.n \ x.v.n, x.v.n \ prev.n, TRUE)
+          /\ LET prev == Last1(chain) IN Commit(x.v, prev.n \ x.v.n, x.v.n \ prev.n, TRUE, FALSE)
 
 SnapNext ==
-    \/ \E i \in DOMAIN chain : \E k \in {"s", "c"} : JobStart(chain[i], k)
+    \/ \E i \in DOMAIN chain : \E k \in {"s", "c"} : JobStart(i, k)
     \/ \E j \in JobIds : GEnqMain(j) \/ GEnqData(j) \/ GExit(j)
     \/ LTake
     \/ \E h \in (IF Busy THEN cur[1].todo ELSE {}) : LCopy(h)
@@ -453,8 +486,8 @@ BlockNext ==
     \/ CommitFresh
     \/ CommitReapply
     \/ Finalize
-    \/ Rollback
-    \/ (blocked < MaxBlocked /\ Enter)
+    \/ (nroots.rb < MaxRollbacks /\ Rollback)
+    \/ (manual < MaxBlocked /\ Enter)
     \/ Exit
 
 Next == BlockNext \/ SnapNext
@@ -481,6 +514,14 @@ Inv_C09_Gc == quiet => Garbage = {}
 \* ... up to the three named deviations (used on recorded traces of the code as it is)
 Inv_C09_GcUnexplained == quiet => Garbage \subseteq (leak.D1 \cup leak.D2 \cup leak.D3)
 
+\* ... and on recorded traces of the code as it is: a missing node of a live root is explained only by
+\* D3 (an entry evicted by a stale buffered cancel no longer protects its nodes)
+Missing(i) == chain[i].n \ db
+Inv_C09_SafetyUnexplained == \A i \in DOMAIN chain : Missing(i) \subseteq leak.D3
+
+\* with the repair of D3 no stale cancel is ever executed
+Inv_NoD3 == conf.f3 => leak.D3 = {}
+
 \* an unblocked prune leaves the buffer empty
 Inv_QuietFlushed == quiet => buf = <<>>
 
@@ -488,7 +529,24 @@ Inv_QuietFlushed == quiet => buf = <<>>
 Inv_NoStalePrune == "D1" \in KnownDefects => \A i \in DOMAIN buf : buf[i].op = "p" => ~buf[i].stale
 
 \* C10: a finished snapshot/checkpoint job holds the whole version
-Inv_C10_Complete == \A j \in JobIds : jobs[j].done => jobs[j].ok
+Inv_C10_Complete == \A j \in JobIds : jobs[j].judged => jobs[j].ok
+
+\* ... up to the named deviation E1: a checkpoint of a root that is not newer than a root whose snapshot was
+\* requested finds none of its nodes marked in the checkpoint hashes holder (TakeSnapshot ->
+\* RemoveCommitted dropped the holder entries up to the snapshot root) and copies nothing
+ExplainedE1(j) ==
+    /\ jobs[j].kind = "c"
+    /\ \E k \in JobIds : k # j /\ jobs[k].kind = "s" /\ jobs[k].v.h >= jobs[j].v.h
+\* ... and E2: the accounts goroutines of a snapshot and of a checkpoint requested while the snapshot is still
+\* running race for the request queue; if the checkpoint of the newer root is queued first it is written before the
+\* snapshot has created its DB and without the nodes it shares with the snapshot root (RemoveCommitted has
+\* already unmarked them)
+Overlap(j, k) == k \in jobs[j].conc \/ j \in jobs[k].conc
+ExplainedE2(j) ==
+    /\ jobs[j].kind = "c"
+    /\ \E k \in JobIds : k # j /\ jobs[k].kind = "s" /\ Overlap(j, k)
+Inv_C10_CompleteUnexplained ==
+    \A j \in JobIds : (jobs[j].judged /\ ~jobs[j].ok) => (ExplainedE1(j) \/ ExplainedE2(j))
 
 \* C10: while a job is running its source nodes stay in the main DB and pruning is blocked
 Inv_C10_Source == \A j \in JobIds : Active(j) => (jobs[j].v.n \subseteq db /\ blocked > 0)
